@@ -373,7 +373,30 @@ def parseparam_quote_parity(p: Program, rep=None):
                             "_parseparam decides 'inside a quoted string' from the number of quotes without discounting escaped ones: a parameter value containing an escaped quote shifts the split, "
                             "so a part's filename parameter is lost (an upload is treated as an in-memory field and counted against the field limit) or invented", []))
     if n == 0:
-        out.append(("undecided", fn, None, "", "_parseparam: no quote-parity test found (splitter idiom not recognised)", []))
+        # the parity may be kept in a running counter (`quotes += s.count('"', a, b)` ... `quotes % 2`): every count of quotes
+        # must then be paired, in the same statement and over the same span, with a subtracted count of escaped quotes
+        qcalls = [c for c in ast.walk(fn.node) if count_of(c, '"')]
+        if not qcalls:
+            out.append(("undecided", fn, None, "", "_parseparam: no quote-parity test found (splitter idiom not recognised)", []))
+            return out
+        from ..common import parents as _par
+        for qc in qcalls:
+            stmt = next((q for q in _par(qc) if isinstance(q, ast.stmt)), None)
+            span = [ast.unparse(a) for a in qc.args[1:]]
+            recv = ast.unparse(qc.func.value)
+            paired = False
+            for b in ast.walk(stmt) if stmt is not None else []:
+                if isinstance(b, ast.BinOp) and isinstance(b.op, ast.Sub) and any(c is qc for c in ast.walk(b.left)):
+                    for ec in ast.walk(b.right):
+                        if count_of(ec, '\\"') and [ast.unparse(a) for a in ec.args[1:]] == span and ast.unparse(ec.func.value) == recv:
+                            paired = True
+            if paired:
+                out.append(("ok", fn, None, "", "_parseparam: every count of quotes is reduced by the count of escaped quotes over the same span", []))
+            else:
+                out.append(("violation", fn, qc, f"quotes counted without discounting escaped ones: {ast.unparse(qc)[:50]}",
+                            "_parseparam counts the double quotes before a ';' without subtracting the escaped ones over the same span: a parameter value containing an escaped quote shifts the split, "
+                            "so a part's filename parameter is lost (an upload is treated as an in-memory field and counted against the field limit) or invented (a field is streamed to a file "
+                            "and not counted)", []))
     return out
 
 
